@@ -18,6 +18,20 @@ use dicom_dictionary_std::StandardDataDictionary;
 use serde_json::{json, Value};
 use vcommon::*;
 
+/// keep at most 3 full mismatch records per distinct fingerprint (all are counted)
+trait MismatchFp {
+    fn mismatch_fp(&mut self, v: Value);
+}
+impl MismatchFp for Report {
+    fn mismatch_fp(&mut self, v: Value) {
+        self.mismatch_count += 1;
+        let same = self.mismatches.iter().filter(|m| m["fp"] == v["fp"]).count();
+        if same < 3 && self.mismatches.len() < self.cap {
+            self.mismatches.push(v);
+        }
+    }
+}
+
 fn cps_json(s: &str) -> Value {
     Value::Array(s.chars().map(|c| Value::from(c as u32)).collect())
 }
@@ -111,27 +125,27 @@ fn replay(cases: &str) {
                 let (res, tag) = parse_tag(&s);
                 let form = if kind == "tag" { "a valid tag form" } else { "a string" };
                 if res == "panic" {
-                    rep.mismatch(json!({"fp": format!("Tag::from_str panics on {} ({})", form, if s.is_ascii() {"ASCII"} else {"non-ASCII"}),
+                    rep.mismatch_fp(json!({"fp": format!("Tag::from_str panics on {} ({})", form, if s.is_ascii() {"ASCII"} else {"non-ASCII"}),
                         "case": case, "text": s}));
                 } else if (res == "ok") != exp_ok {
-                    rep.mismatch(json!({"fp": if exp_ok {"Tag::from_str rejects an accepted form".to_string()} else {"Tag::from_str accepts a string that is not a tag form".to_string()},
+                    rep.mismatch_fp(json!({"fp": if exp_ok {"Tag::from_str rejects an accepted form".to_string()} else {"Tag::from_str accepts a string that is not a tag form".to_string()},
                         "case": case, "text": s, "got": res, "got_tag": tag_json(tag)}));
                 } else if exp_ok && tag != exp_tag {
-                    rep.mismatch(json!({"fp": "Tag::from_str yields a different tag", "case": case, "text": s, "got_tag": tag_json(tag)}));
+                    rep.mismatch_fp(json!({"fp": "Tag::from_str yields a different tag", "case": case, "text": s, "got_tag": tag_json(tag)}));
                 }
                 // the dictionary's tag parser must agree on tag forms
                 if exp_ok {
                     let s2 = s.clone();
                     match catch(move || StandardDataDictionary.parse_tag(&s2)) {
                         Ok(Some(t)) if t == exp_tag => {}
-                        other => rep.mismatch(json!({"fp": "DataDictionary::parse_tag disagrees on a tag form", "case": case, "text": s,
+                        other => rep.mismatch_fp(json!({"fp": "DataDictionary::parse_tag disagrees on a tag form", "case": case, "text": s,
                             "got": format!("{:?}", other)})),
                     }
                 }
                 if kind == "tag" {
                     let shown = Tag(j_usize(&case["tag"][0]) as u16, j_usize(&case["tag"][1]) as u16).to_string();
                     if shown != from_cps(&case["show"]) {
-                        rep.mismatch(json!({"fp": "Display of Tag differs from (GGGG,EEEE)", "case": case, "got": shown}));
+                        rep.mismatch_fp(json!({"fp": "Display of Tag differs from (GGGG,EEEE)", "case": case, "got": shown}));
                     }
                 }
             }
@@ -145,19 +159,19 @@ fn replay(cases: &str) {
                 match catch(move || build_selector(&t2, &i2).map(|x| x.to_string())) {
                     Ok(Some(shown)) => {
                         if shown != from_cps(&case["show"]) {
-                            rep.mismatch(json!({"fp": format!("Display of AttributeSelector differs from the documented syntax (depth {depth})"),
+                            rep.mismatch_fp(json!({"fp": format!("Display of AttributeSelector differs from the documented syntax (depth {depth})"),
                                 "case": case, "got": shown}));
                         }
                     }
-                    other => rep.mismatch(json!({"fp": "AttributeSelector cannot be constructed/printed", "case": case, "got": format!("{:?}", other)})),
+                    other => rep.mismatch_fp(json!({"fp": "AttributeSelector cannot be constructed/printed", "case": case, "got": format!("{:?}", other)})),
                 }
                 // parser on the text chosen by TLC (canonical or alternative key forms)
                 let (panic, got) = parse_selector(&s);
                 if panic {
-                    rep.mismatch(json!({"fp": "parse_selector panics", "case": case, "text": s}));
+                    rep.mismatch_fp(json!({"fp": "parse_selector panics", "case": case, "text": s}));
                 } else if !sel_equal(&got, &case["res"]) {
                     let canonical = s == from_cps(&case["show"]);
-                    rep.mismatch(json!({"fp": format!("parse_selector differs on {} (depth {depth})", if canonical {"the Display form"} else {"an alternative key form"}),
+                    rep.mismatch_fp(json!({"fp": format!("parse_selector differs on {} (depth {depth})", if canonical {"the Display form"} else {"an alternative key form"}),
                         "case": case, "text": s, "got": got}));
                 }
             }
